@@ -468,6 +468,10 @@ func (x *Exec) verifyContract(ct *Contract) (err error) {
 
 	entry := st.fork()
 	x.entryState = entry
+	// quantified preconditions speak about the entry state, whatever the heap looks like later
+	for _, sc := range x.schemas {
+		sc.st = entry
+	}
 	entryEnv := env
 	var finals []finalState
 	if ct.lemma {
@@ -653,7 +657,7 @@ func (x *Exec) evalLetFork(st *State, env *Env, e Expr) []specOut {
 		if _, bound := env.lookup(id.name); !bound {
 			_, isSpec := x.specs[id.name]
 			switch id.name {
-			case "sq", "abs", "min", "max", "sqrt", "ite", "real", "floor", "len", "old", "pre", "isnil", "sin", "cos", "nsent", "sent", "samecell":
+			case "sq", "abs", "min", "max", "sqrt", "ite", "real", "floor", "len", "old", "pre", "isnil", "sin", "cos", "nsent", "sent", "samecell", "maphas", "mapval":
 				isSpec = true
 			}
 			if isSpec {
